@@ -64,7 +64,7 @@ func runC13(c *Ctx) {
 		return
 	}
 	claimName := []string{"preferred_username", "unique_name", "upn", "username"}[c.T.Choose(4)]
-	userName := []string{"alice", "bob@corp.test", "Zoë", "x"}[c.T.Choose(4)]
+	userName := []string{"alice", "bob@corp.test", "Zoë", "x", "CORP\\alice", "DEV\\svc-backup"}[c.T.Choose(6)]
 	user := &env.IdPUser{Sub: "sub-" + userName, Claims: map[string]any{claimName: userName}}
 	// somebody else may be signed in and active on the same gateway all along
 	var other *env.Browser
@@ -142,7 +142,22 @@ func runC13(c *Ctx) {
 		// a state that is old but still inside the two minutes
 		c.S.Advance(time.Duration(c.T.Choose(115)) * time.Second)
 	}
+	if failure == "none" {
+		// clock skew: the provider's clock runs ahead of the gateway's (its tokens are stamped
+		// slightly in the gateway's future)
+		c.W.IdP.ClockAhead = []time.Duration{0, 0, time.Second, 2 * time.Second, 30 * time.Second, 90 * time.Second, 4 * time.Minute}[c.T.Choose(7)]
+		if c.T.Bool(1, 25) {
+			// while this user is at the provider, a crowd of other visitors (no cookie yet) hits the
+			// gateway and is sent to the provider as well
+			n := 515 + c.T.Choose(200)
+			for i := 0; i < n && c.S.Viol == nil; i++ {
+				c.W.Do(&env.HTTPReq{Name: fmt.Sprintf("crowd%d", i), From: fmt.Sprintf("10.8.%d.%d:40000", i/250, 1+i%250), Method: "GET", Path: "/connect"})
+			}
+			c.S.Count("probe.crowd_of_visitors_between_redirect_and_callback")
+		}
+	}
 	cb := b.Get("/callback?state=" + url.QueryEscape(cbState) + "&code=" + url.QueryEscape(code))
+	c.W.IdP.ClockAhead = 0
 	c.W.IdP.Down = false
 	c.W.IdP.TokenFault = ""
 	if !otherActive("after this browser's callback") {
@@ -346,7 +361,8 @@ func runC12(c *Ctx) {
 	pol := &c12Policy{}
 	pol.mode = []string{"roundrobin", "unsigned", "any", "signed"}[c.T.Choose(4)]
 	placeholder := c.T.Bool(1, 3)
-	pol.hosts = []string{"host-a.test:3389", "host-b.test:3390"}
+	// (host entries as administrators write them: lower case, or with capitals)
+	pol.hosts = []string{"host-a.test:3389", []string{"host-b.test:3390", "RDS-B.Corp.Test:3390"}[c.T.Choose(2)]}
 	if placeholder {
 		pol.hosts = []string{"{{ preferred_username }}.desk.test:3389"}
 		if c.T.Bool(1, 2) {
@@ -627,8 +643,15 @@ func runC12(c *Ctx) {
 		}
 		p := &TunPlan{Name: "t0", Transport: tr, From: b.From, XFF: b.XFF, ConnID: "{C12-0000}", AllowedHost: host, CloseAfter: -1}
 		p.Pkts = []CPkt{PHandshake(ServerCapsOf(true, false), 1, 0), PTunnelCreate(tok, true), PTunnelAuth("n"), PChannel(host, HostAllowed), PData([]byte("ping"))}
+		if c.T.Bool(1, 4) {
+			// the identity provider is slow today: it answers the gateway's question about the
+			// token after some seconds
+			c.W.IdP.UserinfoDelay = time.Duration(1+c.T.Choose(8)) * time.Second
+			descr += fmt.Sprintf(" userinfo-answers-after-%v", c.W.IdP.UserinfoDelay)
+		}
 		tuns := StartTunnels(c, []*TunPlan{p})
 		RunTunnels(c, tuns, 3000)
+		c.W.IdP.UserinfoDelay = 0
 		t := tuns[0]
 		t.Hosts = append(t.Hosts, c.W.Host[host])
 		mc := ModelCfg{TokenAuth: true, ServerCaps: ServerCapsOf(true, false)}
